@@ -16,6 +16,7 @@ import fnmatch
 import os
 
 from vlib import c13_corpus as corpus
+from vlib import c13_findings as findings
 from vlib import c13_hostile as hostile
 from vlib import c13_oracle as oracle
 from vlib import c13_render as rd
@@ -159,19 +160,19 @@ def signatures(found: list) -> list:
     """[(signature, message)] - json6+json4 (text4+text6) agreeing on a root cause share one signature"""
     by_root: dict = {}
     for enc, kind, p in found:
-        family = 'json' if enc.startswith('json') else 'text'
-        root = (family, kind, p.clause, p.culprit)
-        entry = by_root.setdefault(root, {'encoders': set(), 'message': p.message})
+        entry = by_root.setdefault((kind, p.clause, p.culprit), {'encoders': set(), 'message': p.message})
         entry['encoders'].add(enc)
     out = []
-    for (family, kind, clause, culprit), entry in by_root.items():
+    for (kind, clause, culprit), entry in by_root.items():
         encs = entry['encoders']
-        # text6 alone: the encoder production never picks; json4 alone / json6 alone: the v4 and v6 NLRI renderings differ
-        name = family if len(encs) > 1 else next(iter(encs))
+        families = {'json' if e.startswith('json') else 'text' for e in encs}
+        # one encoder alone keeps its name (text6: the encoder production never picks; json4 / json6: the v4 and v6 NLRI renderings differ);
+        # both encoders of a family: the family; both families (an exception out of str() / json() of one object): all
+        name = next(iter(encs)) if len(encs) == 1 else (next(iter(families)) if len(families) == 1 else 'all')
         sig = f'{name}:{kind}:{clause}' + (f':{culprit}' if culprit else '')
         out.append((sig, entry['message']))
     # a stable order: unparseable / exceptions before the clauses which follow from them
-    rank = {'render': 0, 'unparseable': 1, 'duplicate-key': 2, 'control-character': 3, 'line-count': 3, 'field-forged': 4}
+    rank = {'render': 0, 'unparseable': 1, 'non-json-number': 1, 'duplicate-key': 2, 'control-character': 3, 'line-count': 3, 'field-forged': 4}
     out.sort(key=lambda sm: (min([r for k, r in rank.items() if k in sm[0]] or [5]), sm[0]))
     return out
 
@@ -267,6 +268,11 @@ def check_hostile(case: dict) -> dict:
     if twin_refused:
         classes.append('twin-refused')
     else:
+        if msg_type == 1:
+            try:
+                twin_events += [e for e in rd.render_negotiated(neighbor, exa.negotiate(neighbor, twin_body, exa.Direction.IN)) if e.encoder.startswith('json')]
+            except exa.Notify:
+                pass
         twin_docs = {}
         for ev in twin_events:
             if ev.string is not None and ev.error is None:
@@ -316,7 +322,7 @@ def check_corpus(case: dict) -> dict:
 
 
 ENGINES = [
-    Engine('hostile-strings', hostile_cases, check_hostile, quick=450, thorough=12000, batch=150),
-    Engine('corpus-render', corpus.mutated_messages, check_corpus, quick=450, thorough=20000, batch=150, fixed_cases=corpus.seed_cases),
+    Engine('hostile-strings', hostile_cases, check_hostile, quick=450, thorough=12000, batch=150, fixed_cases=lambda: findings.cases_for('hostile-strings')),
+    Engine('corpus-render', corpus.mutated_messages, check_corpus, quick=450, thorough=20000, batch=150, fixed_cases=lambda: corpus.seed_cases() + findings.cases_for('corpus-render')),
     Engine('tlv-trees', trees.tree_messages, check_corpus, quick=450, thorough=20000, batch=150),
 ]
